@@ -327,7 +327,8 @@ class C01(Prop):
                 d = rng.randrange(rank)
                 ix, k = mk(d)
                 kinds.append(k)
-                key = ["name", axes[d]["name"]] if sp == "take_axis_name" else ["pos", d]
+                # (a negative position counts from the end, as everywhere else)
+                key = ["name", axes[d]["name"]] if sp == "take_axis_name" else ["pos", d if rng.random() < 0.6 else d - rank]
                 c["index"] = {"form": "axis", "ix": ix, "axis": key}
         else:
             if want_pos and sp in ("take_position",) and rng.random() < 0.3 and rank:
